@@ -18,7 +18,8 @@
   3. code -> spec: TLC (spec/CmdGrammarTrace.tla, verdict layer
      CmdGrammarAst.tla) judges every record: C08.Total,
      C08.TotalUnderMutation, C08.RejectsInvalid, C08.AcceptsValid,
-     C08.Faithful, C08.NothingLeft, C08.BadReachesClient.
+     C08.Faithful, C08.NothingLeft, C08.BadReachesClient,
+     C08.OctetsReachParser.
 """
 import json
 import multiprocessing as mp
@@ -48,6 +49,7 @@ CHECK_DEADLOCK FALSE
 ALL_COMMANDS = ("append authenticate capability check close copy create delete examine expunge fetch id idle "
                 "list login logout lsub move namespace noop rename search select status store subscribe "
                 "unselect unsubscribe").split()
+UTF8 = "-Dstdout.encoding=UTF-8 -Dfile.encoding=UTF-8"   # octets > 127 in the printed texts
 ALLNEG = '{"stop", "garbage", "bad", "short"}'
 PLAN = {
     # exhaustive universes (name, constants), simulated derivations, mutations per text, e2e sample
@@ -81,6 +83,8 @@ def _feature(s):
             f.append("nearinbox")
         elif not t.startswith("f:") and ('"' in body or "\\" in body):
             f.append("escapes")
+        if not t.isascii():
+            f.append("eightbit")
     if cmd == "store" and "(" not in s["text"]:
         f.append("bareflags")
     return f"ok:{cmd}:" + ("+".join(sorted(set(f))) or "plain")
@@ -119,7 +123,7 @@ def fn(ck, a):
         # 1. the language: exhaustive within the bounds, plus random deeper derivations
         for name, consts in plan["exh"]:
             r = tlc.run("CmdGrammar", GEN_CFG.format(**consts), workers=16, timeout=3000,
-                        env={"JAVA_TOOL_OPTIONS": "-Xmx8g"})
+                        env={"JAVA_TOOL_OPTIONS": "-Xmx8g " + UTF8})
             ck.add_tlc("exhaustive:" + name, r)
             if r.violated:
                 ck.violation("C08.SpecLaw", act="model", where=name,
@@ -135,7 +139,7 @@ def fn(ck, a):
         if plan["sim"]:
             r = tlc.run("CmdGrammar", GEN_CFG.format(**plan["sim"]["consts"]), workers=1, timeout=3000,
                         simulate=f"num={plan['sim']['num']}", depth=400, seed=ck.seed + 11,
-                        env={"JAVA_TOOL_OPTIONS": "-Xmx4g"})
+                        env={"JAVA_TOOL_OPTIONS": "-Xmx4g " + UTF8})
             ck.add_tlc("simulate:deep", r, exhaustive=False)
             if r.violated:
                 ck.violation("C08.SpecLaw", act="model", where="simulate",
@@ -163,12 +167,13 @@ def fn(ck, a):
         with ctx.Pool(14) as pool:
             for part in pool.imap_unordered(cg.run_chunk, jobs):
                 for idx, out, iast, rest, mut, worst in part:
-                    S[idx].update(out=out, iast=iast, rest=rest, mut=mut, worst=worst, e2e=["no", "0", "NONE", "0", "no"])
+                    S[idx].update(out=out, iast=iast, rest=rest, mut=mut, worst=worst, e2e=["no", "0", "NONE", "0", "no", ""])
         # end to end: refused texts must reach the client as one tagged BAD
         refused = [i for i, s in enumerate(S) if s["out"] == "bad" and s["text"].startswith(("a1 ", "A.b-2 "))
                    and len(s["text"]) > 3]
         rng = random.Random(ck.seed + 5)
         rng.shuffle(refused)
+        refused.sort(key=lambda i: S[i]["text"].isascii())      # those with octets > 127 first
         refused = refused[: plan["ne2e"]]
         parts = [refused[k::8] for k in range(8) if refused[k::8]]
         with ctx.Pool(len(parts) or 1) as pool:
@@ -186,7 +191,7 @@ def fn(ck, a):
                 continue
             p = os.path.join(tmp, f"cases_{ci}.json")
             with open(p, "w") as f:
-                json.dump([{k: S[i][k] for k in ("cat", "verdict", "ast", "out", "iast", "rest", "mut", "e2e")}
+                json.dump([{k: S[i][k] for k in ("text", "cat", "verdict", "ast", "out", "iast", "rest", "mut", "e2e")}
                            for i in part], f)
             paths.append(p)
             index.append(part)
@@ -205,7 +210,7 @@ def fn(ck, a):
                     act = _feature(S[i])
                     if p_[2] == "C08.TotalUnderMutation":
                         act = "mutant:" + [m for m in S[i]["mut"] if m not in ("parsed", "bad")][0]
-                    elif p_[2] == "C08.BadReachesClient":
+                    elif p_[2] in ("C08.BadReachesClient", "C08.OctetsReachParser"):
                         act = "e2e"
                     viols.setdefault((p_[2], act), []).append(i)
                 elif p_ and p_[0] == "DONE":
@@ -243,8 +248,8 @@ def fn(ck, a):
             s0 = S[lst[0]]
             if clause == "C08.TotalUnderMutation":
                 what = f"mutant {s0['worst']!r} -> {[m for m in s0['mut'] if m not in ('parsed', 'bad')]}"
-            elif clause == "C08.BadReachesClient":
-                what = f"{s0['text']!r} -> [ran, tagged, status, other, usable] = {s0['e2e']}"
+            elif clause in ("C08.BadReachesClient", "C08.OctetsReachParser"):
+                what = f"{s0['text']!r} -> [ran, tagged, status, other, usable, handed to parser] = {s0['e2e']}"
             elif clause == "C08.Faithful":
                 what = f"{s0['text']!r} denotes {s0['ast'][4:]} but was parsed as {s0['iast'][4:]} rest={s0['rest']!r}"
             else:
